@@ -669,3 +669,29 @@ def c_secure_value(ex, st, args, kwargs, cx):
 
 
 BUILTIN_CTORS["SecureValue"] = c_secure_value
+
+
+def d_update(ex, st, recv, args, kwargs, cx):
+    """dict.update(other_dict): pointwise merge (kept as a schema over keys); order of the merged dict is abstract"""
+    from .eval_call import Schema
+    o, w = ex.o, ex.w
+    if kwargs or len(args) != 1 or not o.refcls(st, args[0], ("dict",)):
+        raise Unsupported("dict.update form")
+    st = st.clone()
+    a, b = o.r(recv), o.r(args[0])
+    d1, m1, d2, m2 = st.rd("$dom", a), st.rd("$map", a), st.rd("$dom", b), st.rd("$map", b)
+    nd, nm = w.fresh("upd_dom", w.SORTS["dom"]), w.fresh("upd_map", w.SORTS["map"])
+
+    def inst(k, d1=d1, m1=m1, d2=d2, m2=m2, nd=nd, nm=nm):
+        return z3.And(z3.Select(nd, k) == z3.Or(z3.Select(d1, k), z3.Select(d2, k)),
+                      z3.Select(nm, k) == z3.If(z3.Select(d2, k), z3.Select(m2, k), z3.Select(m1, k)))
+    st.schemas = st.schemas + [Schema("key", inst, "dict.update")]
+    st.wr("$dom", a, nd)
+    st.wr("$map", a, nm)
+    for arr in ("$keys", "$pos", "$len"):
+        st.wr(arr, a, w.fresh(arr.strip("$"), w.SORTS[w.SPECIAL[arr]]))
+    st.assume(st.rd("$len", a) >= 0)
+    yield st, o.none()
+
+
+CONTAINER_METHODS[("dict", "update")] = d_update
